@@ -78,12 +78,9 @@ def reparse_if_needed(student_code=None, report=MAIN_REPORT):
             cait['ast'] = cait['cache'][student_code]
             cait['success'], cait['error'] = True, None
             return cait
-        # Try to steal parse from Source module, if available
-        if report[SOURCE_TOOL_NAME]['success']:
-            student_ast = report[SOURCE_TOOL_NAME]['ast']
-            cait['success'], cait['error'] = True, None
-        else:
-            student_ast = _parse_source(student_code, report=report)
+        # The Source tool's tree is not reused: it belongs to whatever text was
+        # verified last, which need not be the submission (verify(other_code))
+        student_ast = _parse_source(student_code, report=report)
     cait['ast'] = CaitNode(student_ast, report=report)
     # Only successful parses are remembered, so that a cache hit always means
     # that the most recent "parse" succeeded
